@@ -107,7 +107,8 @@ def parsePrintedStack (trim : List Str) (st : Str) : List RFrame :=
 
 /-- withstack.GetReportableStackTrace -/
 def reportableStack (P : Proc) (trim : List Str) (e : Err) : Option (List RFrame) :=
-  (layerStackStr P e).map (parsePrintedStack trim)
+  -- a printed stack without any frame is no stack trace (fix D15: it used to parse into one blank frame)
+  (layerStackStr P e).bind (fun st => if trimSpace st = [] then none else some (parsePrintedStack trim st))
 
 /-- getOneLineSourceFromPrintedStack: (file, line) -/
 def oneLineOfPrinted (st : Str) : Str × Int :=
